@@ -1113,6 +1113,9 @@ func main() {
 		}
 		r.Finish()
 	}
+	// the time left is shared equally among the scenarios still to run: the large alphabets go
+	// last so that they inherit what the small ones did not use
+	sort.SliceStable(scs, func(i, j int) bool { return scs[i].ops != "options" && scs[j].ops == "options" })
 	for i, sc := range scs {
 		if o := os.Getenv("C15_ONLY"); o != "" && !strings.Contains(sc.name, o) {
 			continue
